@@ -67,6 +67,64 @@ type Case struct {
 	Intent  *Intent    `json:"intent,omitempty"`
 	Srv     *SrvScript `json:"srv,omitempty"`
 	Probe   string     `json:"probe,omitempty"` // name of the directed probe that produced the case
+	// interleaved: several connections of one process, their handshakes and post-handshake reads in scripted order
+	Sub   []Case `json:"sub,omitempty"`
+	Order []int  `json:"order,omitempty"` // whose turn it is (index into Sub); a turn lasts until the connection's next yield point
+	Pin   bool   `json:"pin,omitempty"`   // GOMAXPROCS(1): pools hand back the same object
+
+	y *yielder
+}
+
+// yielder: strict hand-off between the connections of an interleaved case (exactly one runs at any time).
+type yielder struct {
+	turn, back chan struct{}
+	done       bool
+	cache      map[string]any // long-lived server / client objects shared by the connections of the case
+}
+
+func (y *yielder) yield() {
+	if y == nil {
+		return
+	}
+	y.back <- struct{}{}
+	<-y.turn
+}
+
+// shared returns the long-lived object for a configuration (one per case in interleaved mode: servers and
+// clients are shared by all connections of a process).
+func shared[T any](y *yielder, key string, mk func() (T, error)) (T, error) {
+	if y == nil {
+		return mk()
+	}
+	if v, ok := y.cache[key]; ok {
+		return v.(T), nil
+	}
+	v, err := mk()
+	if err == nil {
+		y.cache[key] = v
+	}
+	return v, err
+}
+
+// drain reads the tunnel to its end; in interleaved mode other connections get turns between the reads.
+func drain(c io.Reader, y *yielder) []byte {
+	if y == nil {
+		b, _ := io.ReadAll(c)
+		return b
+	}
+	var res []byte
+	for i, n := range []int{3, 700, 5} {
+		_ = i
+		buf := make([]byte, n)
+		k, err := c.Read(buf)
+		res = append(res, buf[:k]...)
+		if err != nil {
+			return res
+		}
+		y.yield()
+	}
+	b, _ := io.ReadAll(c)
+	return append(res, b...)
 }
 
 func usersField(us []User) string {
@@ -181,6 +239,7 @@ type obs struct {
 	hasPC  bool
 	pong   bool
 	note   string
+	y      *yielder
 }
 
 func locAddr(a A) net.Addr {
@@ -204,7 +263,11 @@ func finish(req netio.ConnRequest, sc *scriptConn, act string, o *obs) {
 			return
 		}
 		o.out = append([]byte(nil), sc.out...)
-		o.stream, _ = io.ReadAll(c)
+		o.y.yield() // handshake complete: other connections may handshake before the tunnel is read
+		o.stream = drain(c, o.y)
+		if o.stream == nil {
+			o.stream = []byte{}
+		}
 		// bytes written after the handshake must leave unchanged
 		before := len(sc.out)
 		c.Write([]byte("PONG\x00\xff"))
@@ -240,10 +303,11 @@ func runS5S(c Case) (o obs, cfgErr error) {
 		users = append(users, socks5.UserInfo{Username: string(unhx(u.U)), Password: string(unhx(u.P))})
 	}
 	cfg := socks5.StreamServerConfig{Users: users, EnableUserPassAuth: c.Auth, EnableTCP: c.TCP, EnableUDP: c.UDP}
-	srv, err := cfg.NewStreamServer()
+	srv, err := shared(c.y, fmt.Sprintf("s5s %v %v %v %s", c.Auth, c.TCP, c.UDP, usersField(c.Users)), cfg.NewStreamServer)
 	if err != nil {
 		return o, err
 	}
+	o.y = c.y
 	sc := newScriptConn(chunkBytes(c.Chunks), locAddr(c.Loc))
 	req, err := srv.HandleStream(sc, zap.NewNop())
 	o.hasPC = req.PendingConn != nil
@@ -290,7 +354,9 @@ func runS5C(c Case) string {
 	if err != nil {
 		return fmt.Sprintf("err:%s - %s -", classify(err), hx(sc.out))
 	}
-	return fmt.Sprintf("ok %s %s %s", fromConnAddr(bound).field(), hx(sc.out), hx(sc.rest()))
+	out := hx(sc.out)
+	c.y.yield()
+	return fmt.Sprintf("ok %s %s %s", fromConnAddr(bound).field(), out, hx(drain(sc, c.y)))
 }
 
 func runNoneS(c Case) (o obs) {
@@ -304,6 +370,7 @@ func runNoneS(c Case) (o obs) {
 	o.hasPC = req.PendingConn != nil
 	o.addr = fromConnAddr(req.Addr)
 	o.user = hx([]byte(req.Username))
+	o.y = c.y
 	if o.hasPC {
 		finish(req, sc, "P", &o)
 	}
